@@ -1158,7 +1158,11 @@ func c02r6(c *core.Ctx) {
 func c03r5(c *core.Ctx) {
 	wrappersPure(c, [][2]string{{"crypto", "ValidateED25519Signature"}, {"crypto/chacha20poly1305", "DecryptAndVerify"}, {"crypto/hkdf", "Sha512"}, {"crypto/curve25519", "SharedSecret"}})
 	if ctor := c.P.Func("hap/pair", "NewVerifyServerController"); ctor != nil {
-		freshState(c, ctor, "the pair-verify controller constructor")
+		if verifySessionFreshPerStart(c.P) {
+			c.OK("fresh-per-connection:"+core.Rel(core.QualName(ctor)), ctor.Pos(), "superseded: every exchange gets a session created in its start handler, the one the constructor makes is never used")
+		} else {
+			freshState(c, ctor, "the pair-verify controller constructor")
+		}
 	} else {
 		c.Undecided("NewVerifyServerController", token.NoPos, "not found")
 	}
@@ -1274,7 +1278,11 @@ func c05r6(c *core.Ctx) {
 	// the session key is derived from the ephemeral keys of this connection: with a process-wide accessory key pair a replayed
 	// pair-verify yields the same session key with the frame counter back at zero, and every recorded frame is accepted again
 	if ctor := c.P.Func("hap/pair", "NewVerifyServerController"); ctor != nil {
-		freshState(c, ctor, "the pair-verify controller constructor")
+		if verifySessionFreshPerStart(c.P) {
+			c.OK("fresh-per-connection:"+core.Rel(core.QualName(ctor)), ctor.Pos(), "superseded: every exchange gets a session created in its start handler, the one the constructor makes is never used")
+		} else {
+			freshState(c, ctor, "the pair-verify controller constructor")
+		}
 	} else {
 		c.Undecided("NewVerifyServerController", token.NoPos, "not found")
 	}
@@ -2036,6 +2044,13 @@ func errorTestPolarity(c *core.Ctx, f *ssa.Function, signals func(ssa.Instructio
 			} else if ret != nil && !signalled {
 				if core.IsNilConst(errv) || errv == t.ev || res(ret)[nres-1] == t.ev || sameCellUnchanged(pa, k, errv, t.ev) || !core.SomeSource(errv, func(s ssa.Value) bool { return core.SomeSource(t.ev, func(e ssa.Value) bool { return e == s }) }) {
 					t.success = true
+				} else {
+					// a named result is one cell for every error of the function: compare what the cell held at the test with what
+					// it holds at the return, along this path
+					evR, errR := cellValueAt(pa, k, t.ev), cellValueAt(pa, len(pa)-1, errv)
+					if evR != nil && errR != nil && (core.IsNilConst(errR) || !core.SomeSource(errR, func(s ssa.Value) bool { return core.SomeSource(evR, func(e ssa.Value) bool { return e == s }) })) {
+						t.success = true
+					}
 				}
 			}
 		}
@@ -2393,4 +2408,29 @@ func infeasibleZeroCount(pa core.Path, k int, v ssa.Value) bool {
 		}
 	}
 	return false
+}
+
+// cellValueAt: v is a load of a local variable (a named result, a variable spilled because of a defer); the value stored to it last on
+// the path, up to the load (block k). nil if v is no such load or nothing was stored.
+func cellValueAt(pa core.Path, k int, v ssa.Value) ssa.Value {
+	u, ok := v.(*ssa.UnOp)
+	if !ok || u.Op != token.MUL {
+		return v
+	}
+	a, ok := u.X.(*ssa.Alloc)
+	if !ok {
+		return v
+	}
+	var last ssa.Value
+	for m := 0; m <= k && m < len(pa); m++ {
+		for _, i := range pa[m].Instrs {
+			if i == ssa.Instruction(u) {
+				return last
+			}
+			if st, isSt := i.(*ssa.Store); isSt && st.Addr == ssa.Value(a) {
+				last = pa.ResolveAt(m, st.Val)
+			}
+		}
+	}
+	return last
 }
